@@ -369,7 +369,7 @@ func init() {
 				panic(err)
 			}
 			t := tabular.New()
-			o := ts.BuildRender(t, func(t tabular.Table) func() (string, error) { w := markdown.Wrap(t); return w.Render })
+			o := ts.BuildRenderW(t, func(t tabular.Table) RenderW { return markdown.Wrap(t) })
 			v := ts.SpecView() // judged against what was put in, not what the table now holds
 			vc := mdViewCoq(v)
 			return CaseOut{
